@@ -55,6 +55,21 @@ CHECKS = {
    "Generated (body length incl. threshold neighbours and 2 MiB, kind incl. >1000x compressible, upstream encoding identity/gzip/br/lz4/zst/snz, content type, status, cacheable or not, GET/POST) on six servers (min-length default/1/100/64kb, custom filter, compress levels 1, 9/11, out of range, tiny cache with store); every path of the statement: fetching request and coalesced waiters, later hits, hit after eviction and restore from the store, hit-for-pass, passed; each request with its own Accept-Encoding list. Judged: status, decoded body identical, Content-Encoding among the accepted tokens, Content-Length, end-to-end headers as multiset with per-name order.",
    "reference codecs for br/lz4/zst/snz are the libraries pike links (self-checked by round trip); Date/Connection/Content-Length/Content-Encoding/Age/X-Status and hop-by-hop headers excluded",
    "DESIGN.md 6/C05"),
+ "C15": ("inproc", "exploration",
+   "differential monitor: origin request log vs reference transformation of the client request; client response vs origin response + configured headers; second-client probe after conditional/Range requests",
+   "Seven locations (unchanged, the two documented rewrite forms, literal swap, added request/response headers, added query parameters, upstream Accept-Encoding override); generated methods, bodies up to 1 MiB, multi-valued and credential headers, escaped paths, queries with repeated keys/escapes/value-less parameters; conditional (matching and non-matching ETag / Last-Modified) and Range (first bytes, suffix, multi-range, If-Range) headers on cold, hit and hit-for-pass keys against an http.ServeContent origin; after client A a plain client B must receive the full 200.",
+   "not judged: malformed queries, If-Match/412, X-Forwarded-For/User-Agent, upstream Accept-Encoding when the client sent none, conditional headers on a cold uncacheable fetch, 304 for HEAD",
+   "DESIGN.md 6/C15"),
+ "C06": ("inproc", "exploration",
+   "per-response self-identification oracle (origin echoes method/Host/URI into body and headers) under concurrent traffic with forced shard collisions and constant eviction; race detector + checkptr; dispatcher-level entry identity",
+   "156 near-identical keys (slash/digit/case/escape differences, queries differing in one byte or only by '?', three hosts, GET vs HEAD, 1.8 kB URIs differing in the last byte, 60 keys forced into one shard via MemHash) on caches of size 8/24/64, 32 concurrent clients: every 2xx answer must echo exactly the requester's method, Host and URI; one million generated keys at the dispatcher level must resolve to pairwise distinct, stable entries.",
+   "the origin's echo is ground truth; evictions are observed through the eviction hook (tens of thousands per run)",
+   "DESIGN.md 6/C06"),
+ "C09": ("inproc", "exploration",
+   "round-trip behavioural equivalence monitor + byte-level mutation with panic/hang/allocation monitors in isolated child processes",
+   "Structured entries (all states, 0-200 header lines incl. UTF-8, control and non-UTF-8 bytes, every subset of body variants up to 2 MiB, profile names, filters, extreme clock values and lifetimes) are encoded, decoded and compared through the exported API (Get/Age/Fill for 6 Accept-Encoding values at +0,+1,+T,+T+1 s); on 200 valid records: truncation at every offset must error, bit flips, length-field edits, splices, random strings and crafted filter fields must not panic, hang (20 s) or allocate more than 32x input + 1 MiB (MemStats delta). A dead child is a verdict with the logged case index as witness.",
+   "truncation of a bare response record is not judged; thorough tier multiplies batches (40) instead of coverage-guided fuzzing",
+   "DESIGN.md 6/C09"),
 }
 ALL = ["C%02d" % i for i in range(1, 21)]
 NOT_BUILT_REASON = "no check is registered for this property yet (framework under construction; see DESIGN.md Appendix B build order)"
